@@ -70,26 +70,31 @@ void _ZN23QRegularExpressionMatchD1Ev(char *self) { }
    (tag = the header's Mid unit) with one child per stanza (tag = its Mid unit, namespace = the header's). */
 void _ZN12QDomDocumentC1Ev(char *self) { DN(self) = 0; }
 void _ZN12QDomDocumentD1Ev(char *self) { }
-static QAD *c03_unit(uint16_t u) { QAD *d = qs_new(1, 1); qs_chars(d)[0] = u; return d; }
-static struct dnode *vpl_parse(const uint16_t *p, uint32_t n) {
-  /* the literal close tag is recognised as the last 16 units only (that is where the real code puts it; the harness never
-     feeds '<' as an ordinary character) */
+static QAD *c03_unit(uint16_t u) { QAD *d = qs_new(1, 1); C03_SD(d)[0] = u; return d; }
+#define C03_MAXCHILD 4
+struct c03_doc { uint8_t ok; uint16_t hid; uint32_t nch; uint16_t cid[C03_MAXCHILD]; };
+/* token automaton; the literal close tag is recognised as the last 16 units only (that is where the real code puts it; the
+   harness never feeds '<' as an ordinary character) */
+static struct c03_doc vpl_parse(const uint16_t *p, uint32_t n) { struct c03_doc D; D.ok = 0; D.hid = 0; D.nch = 0; for (uint32_t k = 0; k < C03_MAXCHILD; k++) D.cid[k] = 0;
   uint32_t lit = 0; if (n >= 16 && vpl_lit_at(p, n - 16)) { lit = 1; n -= 16; }
-  struct dnode *root = 0; uint32_t st = 0 /* 0 prolog, 1 inside <stream>, 2 after </stream> */, skip = 0; uint8_t bad = 0;
+  uint32_t st = 0 /* 0 prolog, 1 inside <stream>, 2 after </stream> */, skip = 0; uint8_t bad = 0;
   for (uint32_t i = 0; i < C03_TCAP; i++) { if (i >= n) break; if (skip) { skip--; continue; } uint16_t u = p[i];
     if (u == U_PA) { if (i == 0 && n >= 2 && p[1] == U_PB) skip = 1; else bad = 1; }
     else if (c03_is_xml_space(u)) { }
-    else if (u == U_HA) { if (st == 0 && i + 2 < n && IS_MID(p[i + 1]) && p[i + 2] == U_HB) { root = dn_new(); root->tag = c03_unit(p[i + 1]); root->ns = root->tag; st = 1; skip = 2; } else bad = 1; }
-    else if (u == U_XA) { if (st == 1 && i + 2 < n && IS_MID(p[i + 1]) && p[i + 2] == U_XB) { struct dnode *c = dn_new(); c->tag = c03_unit(p[i + 1]); c->ns = root->ns; dn_append(root, c); skip = 2; } else bad = 1; }
+    else if (u == U_HA) { if (st == 0 && i + 2 < n && IS_MID(p[i + 1]) && p[i + 2] == U_HB) { D.hid = p[i + 1]; st = 1; skip = 2; } else bad = 1; }
+    else if (u == U_XA) { if (st == 1 && i + 2 < n && IS_MID(p[i + 1]) && p[i + 2] == U_XB) { ASSERT(D.nch < C03_MAXCHILD, "setContent model: too many stanzas in one document"); ASSUME(D.nch < C03_MAXCHILD); D.cid[D.nch++] = p[i + 1]; skip = 2; } else bad = 1; }
     else if (u == U_CA) { if (st == 1 && i + 2 < n && p[i + 1] == U_CB && p[i + 2] == U_CC) { st = 2; skip = 2; } else bad = 1; }
     else bad = 1;
     if (bad) break; }
-  if (bad) return 0;
-  if (lit) { if (st != 1) return 0; st = 2; }
-  return st == 2 ? root : 0; }
+  if (bad) return D;
+  if (lit) { if (st != 1) return D; st = 2; }
+  D.ok = st == 2; return D; }
+static struct dnode *c03_build(struct c03_doc *D) { struct dnode *root = dn_new(); root->tag = c03_unit(D->hid); root->ns = root->tag;
+  for (uint32_t k = 0; k < C03_MAXCHILD; k++) { if (k >= D->nch) break; struct dnode *c = dn_new(); c->tag = c03_unit(D->cid[k]); c->ns = root->ns; dn_append(root, c); }
+  return root; }
 uint8_t _ZN12QDomDocument10setContentERK7QStringbPS0_PiS4_(char *self, char *text, uint8_t nsp, char *err, char *el, char *ec) { QAD *t = *(QAD**)text;
   ASSERT(t->f1 <= C03_TCAP, "text model: document longer than the bound"); ASSERT(nsp == 1, "setContent model: namespace processing expected");
-  struct dnode *r = vpl_parse(qs_chars(t), t->f1); DN(self) = r; return r != 0; }
+  struct c03_doc D = vpl_parse(qs_chars(t), t->f1); DN(self) = D.ok ? c03_build(&D) : 0; return D.ok; }
 void _ZNK12QDomDocument15documentElementEv(char *ret, char *self) { DN(ret) = DN(self); }
 
 /* ---- the four signals of XmppSocket: ghost event log ---- */
@@ -116,7 +121,7 @@ static uint16_t c03_ws(void) { return vp_bool() ? 0x0A : 0x20; }
 #endif
 /* stream = [P] [ws] H [ws] (X [ws])^n [C]   or, when the header was received earlier (`cached` = what the start pattern
    captured then): [ws] (X [ws])^n [C] */
-void vp_c03_make_stream(char *text, char *cached, uint32_t maxst) { uint16_t t[C03_TCAP]; uint32_t n = 0; uint16_t c[8]; uint32_t nc = 0;
+void vp_c03_make_stream(char *text, char *cached, uint32_t maxst) { uint16_t t[C03_TCAP]; uint32_t n = 0; uint16_t c[8]; uint32_t nc = 0; for (uint32_t i = 0; i < C03_TCAP; i++) t[i] = 0; for (uint32_t i = 0; i < 8; i++) c[i] = 0;
   uint8_t earlier = vp_bool(); uint16_t hid = 0xE100 + vp_u8();
   uint8_t decl = vp_bool(), ws0 = vp_bool(); uint16_t w0 = c03_ws();
   if (earlier) { if (decl) { c[nc++] = U_PA; c[nc++] = U_PB; } if (ws0) c[nc++] = w0; c[nc++] = U_HA; c[nc++] = hid; c[nc++] = U_HB; }
